@@ -33,6 +33,7 @@ type Engine struct {
 	funcsSeen sync.Map // string -> position (functions encoded)
 	stats     SolverStats
 	models    map[string]*ssa.Function
+	skipInitPkgs map[string]bool
 	statsMu   sync.Mutex
 }
 
@@ -387,7 +388,11 @@ func (it *Interp) visitInstr(fr *frame, instr ssa.Instruction) (ret bool, jumped
 		if p == nil {
 			panic(it.throw("invalid memory address or nil pointer dereference"))
 		}
-		fr.set(instr, &(*p).(Struct)[instr.Field])
+		st, isStruct := (*p).(Struct)
+		if !isStruct {
+			panic(it.unsupported(fmt.Sprintf("FieldAddr %s on cell holding %T", instr, *p)))
+		}
+		fr.set(instr, &st[instr.Field])
 	case *ssa.Field:
 		fr.set(instr, fr.get(instr.X).(Struct)[instr.Field])
 	case *ssa.IndexAddr:
